@@ -53,6 +53,12 @@ let fprint_handler prop = reg prop "Fprint" (fun ver args obs ->
          if c > pos + 2 + 1000 then
            Some (Printf.sprintf "digits consulted after the fault: %d source calls, highest position being printed %d" c pos)
          else None
+       | Some c when infinite && not r.pr_err ->
+         (* a complete print delivers no position beyond the last one it shows *)
+         let last = List.fold_left (fun m (q, _) -> max m (clamp_int_of_z q)) 0 shown in
+         if c > last + 2 + 1000 then
+           Some (Printf.sprintf "%d positions consulted by a print whose highest shown position is %d" c last)
+         else None
        | _ -> None) in
     let known =
       if obs = ["TIMEOUT"] && hangs_pinned ops r then Some "gap-loop-hang" else None in
